@@ -2337,6 +2337,31 @@ class SEVM:
         # NOTE: ex.balance_of(to) must be called **after** updating the caller's balance above, to correctly handle the self-transfer case
         ex.balance_update(to, BV(ex.balance_of(to)).add(value))
 
+    def check_static_call_value(self, ex: Exec, stack: Worklist) -> None:
+        """EIP-214: inside a static frame, CALL with a non-zero value is a state modification."""
+
+        fund = ex.st.peek(3)
+        fund: BV = fund.as_bv(size=256) if type(fund) is Bool else fund
+
+        if fund.is_concrete:
+            if fund.value != 0:
+                raise WriteInStaticContext(ex.context_str())
+            return
+
+        nonzero_cond = fund.as_z3() != Z3_ZERO
+        if ex.check(nonzero_cond) == unsat:
+            return
+
+        # the zero-value case proceeds: re-execute this CALL with a concrete zero value
+        zero_cond = Not(nonzero_cond)
+        if ex.check(zero_cond) != unsat:
+            zero_ex = self.create_branch(ex, zero_cond, ex.pc)
+            zero_ex.st.stack[-3] = ZERO
+            stack.push(zero_ex)
+
+        ex.path.append(nonzero_cond, branching=True)
+        raise WriteInStaticContext(ex.context_str())
+
     def call(
         self,
         ex: Exec,
@@ -2347,6 +2372,9 @@ class SEVM:
         # `to`: the original (symbolic) target address
         # `to_alias`: a (concrete) alias of the target considered in this path.
         #            it could be None, indicating a non-existent address.
+        if op == OP_CALL and ex.context.message.is_static:
+            self.check_static_call_value(ex, stack)
+
         ex.st.pop()  # gas
 
         to: BV = uint160(ex.st.pop())
